@@ -141,8 +141,10 @@ Section AEAD.
          end.
 
   (* cipher.go: AesCipher.Decrypt.  gcm.Open panics when the nonce is not 12 bytes long
-     ("crypto/cipher: incorrect nonce length given to GCM"); Decrypt does not check the length.
-     [checked] = true is the behaviour the property demands (an error), false is today's code. *)
+     ("crypto/cipher: incorrect nonce length given to GCM").  Since commit 6b22eb8 (fix of finding
+     C39-1) Decrypt checks len(iv) != gcm.NonceSize() and returns an error: [checked] = true is
+     today's code (and what the property demands); [checked] = false is the PRE-fix code, kept
+     only to state what the finding was. *)
   Definition decrypt_gen (checked : bool) (k blob : bytes) : outcome bytes :=
     match envelope_of_blob blob with
     | None => Err
@@ -175,10 +177,11 @@ Section AEAD.
     | _ => Err
     end.
 
-  Definition impl_read_hostname := read_hostname_gen false.
-  Definition spec_read_hostname := read_hostname_gen true.
+  Definition impl_read_hostname := read_hostname_gen true.      (* the code as it is now *)
+  Definition spec_read_hostname := read_hostname_gen true.      (* what the property demands *)
+  Definition prefix_read_hostname := read_hostname_gen false.   (* the code BEFORE commit 6b22eb8 *)
 
-  (* the finding's trigger: everything up to the cipher succeeds and the decoded nonce is not 12 bytes *)
+  (* the (fixed) finding's trigger: everything up to the cipher succeeds and the decoded nonce is not 12 bytes *)
   Definition trigger_bad_iv (hostname : bytes) : bool :=
     match split_on 0 hostname with
     | [_; data] =>
